@@ -946,8 +946,19 @@ func (w *World) progress(releaseAcks bool) bool {
 	}
 	if core.ParkedCount() > 0 && (!did || w.Sched.Chance(1, 4)) {
 		// goroutines parked at lock sites stay parked while anything else can
-		// still happen (that is the point); they are released one at a time
-		if core.ReleaseParked(w.Sched) {
+		// still happen (that is the point); they are released one at a time.
+		// A short timer that is about to fire (a write-delay flush) counts as
+		// something else: half of the time it goes first, so that a goroutine can
+		// sit between two statements while a buffered packet travels and its
+		// answer comes back.
+		nw := rt.NextWake()
+		if d := time.Duration(nw - time.Now().UnixNano()); !did && nw != 0 && d <= w.shortHorizon() && w.Sched.Chance(1, 2) {
+			if d < 0 {
+				d = 0
+			}
+			time.Sleep(d)
+			did = true
+		} else if core.ReleaseParked(w.Sched) {
 			did = true
 		}
 	}
